@@ -12,7 +12,7 @@
     retry                    api_async/transports/tls.py  AsyncTLSStreamTransport._retry_ssl_method  +  _IncomingDataReader.readinto
     recvMap / recv           AsyncTLSStreamTransport.recv / recv_into             (except clauses from the table)
     wrap                     AsyncTLSStreamTransport.wrap  (from `with transport.backend().timeout(handshake_timeout)` on)
-    aclose                   AsyncTLSStreamTransport.aclose
+    aclose / acloseUnwrap    AsyncTLSStreamTransport.aclose  (acloseUnwrap = its inner `try: unwrap … except SSLError: flush … except OSError: pass`)
     stdlibRead               CPython ssl.SSLSocket.read  (`suppress_ragged_eofs`; stdlib, modelled)
     syncRecv                 api_sync/transports/socket.py  SSLStreamTransport.recv_noblock / recv_noblock_into + _try_ssl_method
     syncClose                SSLStreamTransport.close
@@ -138,6 +138,9 @@ structure Tables (ε : Type) where
   recvIntoClauses : List (Clause ε)
   -- aclose / wrap
   acloseSwallow : List ε                  -- `except OSError: pass` around the unwrap
+  acloseFlushesOnSslError : Bool          -- the unwrap has `except SSLError: with suppress(OSError): await self.__flush_pending_writes()`
+  acloseFlushOn : List ε                  -- … the classes of that clause (`SSLError`); [] when the clause is absent
+  acloseFlushSuppress : List ε            -- … the classes given to `contextlib.suppress` (`OSError`)
   acloseUnwraps : Bool                    -- `await self._retry_ssl_method(self._ssl_object.unwrap)` is there
   acloseGuardSC : Bool                    -- the unwrap is guarded by `self._standard_compatible and not transport.is_closing()`
   acloseMarksEof : Bool                   -- `self._read_bio.write_eof(); self._write_bio.write_eof()` after the unwrap
@@ -358,6 +361,10 @@ inductive COut (ε : Type) where
   | exn (x : Exn ε)
   deriving Repr
 
+def COut.isOk {ε} : COut ε → Bool
+  | .ok => true
+  | .exn _ => false
+
 /-- `await aclose_forcefully(transport)`: the wrapped transport marks closing before its first suspension and the expired
     scope cancels it there -/
 def force (s : St) : St × List Call := ({ s with innerClosing := true }, [.innerForce])
@@ -388,33 +395,62 @@ def swallowed {ε} (T : Tables ε) : Exn ε → Bool
   | .cls e _ => catches T T.acloseSwallow e
   | _ => false
 
+/-- is the exception caught by `except SSLError:` — the clause that flushes the output of a FAILING `unwrap()` (only when the
+    generated table says the clause is there) -/
+def sslFlushCaught {ε} (T : Tables ε) : Exn ε → Bool
+  | .cls e _ => T.acloseFlushesOnSslError && catches T T.acloseFlushOn e
+  | _ => false
+
+/-- `with contextlib.suppress(OSError):` around that flush -/
+def flushSuppressed {ε} (T : Tables ε) : Exn ε → Bool
+  | .cls e _ => catches T T.acloseFlushSuppress e
+  | _ => false
+
+/-- the inner `try` statement of `aclose`:
+      try:                 await self._retry_ssl_method(self._ssl_object.unwrap)
+      except SSLError:     with contextlib.suppress(OSError): await self.__flush_pending_writes()     (if the table has the clause)
+      except OSError:      pass
+    The result is the exception that LEAVES the statement (`none`: it ended normally / the exception was handled).
+    `unwrap()` may have written the close_notify alert into the outgoing BIO before failing (application data received from
+    the peer and not read yet): the first handler hands it to the wrapped transport; an exception of that flush is not seen by
+    the sibling `except OSError` (it leaves the statement unless `suppress` takes it). -/
+def acloseUnwrap {ε} (T : Tables ε) (fuel : Nat) (s : St) (script : List (Resp ε)) : Run ε (Option (Exn ε)) :=
+  match retry T .unwrap fuel s script with
+  | none => none
+  | some (.ret _, s2, rest, calls) => some (none, s2, rest, calls)
+  | some (.exn x, s2, rest, calls) =>
+    if sslFlushCaught T x then
+      match flush s2 rest with
+      | none => none
+      | some (none, s3, rest3, calls3) => some (none, s3, rest3, calls ++ calls3)
+      | some (some y, s3, rest3, calls3) => some (if flushSuppressed T y then none else some y, s3, rest3, calls ++ calls3)
+    else some (if swallowed T x then none else some x, s2, rest, calls)
+
+/-- what `aclose` returns when the exception `x` leaves the shutdown scope:
+    `if shutdown_timeout_scope.cancelled_caught(): return`, anything else propagates -/
+def acloseFail {ε} : Exn ε → COut ε
+  | .scopeTimeout => .ok
+  | y => .exn y
+
 /-- `AsyncTLSStreamTransport.aclose` (first call; a later call only waits for the `__closed` event).
     The ExitStack callbacks run on every exit: `closedEv`. -/
 def aclose {ε} (T : Tables ε) (sc : Bool) (s : St) (script : List (Resp ε)) : Run ε (COut ε) :=
   if s.closing then some (.ok, s, script, [])
   else if (sc || !T.acloseGuardSC) && !s.innerClosing && T.acloseUnwraps then
-    match retry T .unwrap (script.length + 1) { s with closing := true } script with
+    match acloseUnwrap T (script.length + 1) { s with closing := true } script with
     | none => none
-    | some (r, s2, rest, calls) =>
-      let failed : Option (Exn ε) := match r with
-        | .ret _ => none
-        | .exn x => if swallowed T x then none else some x
-      match failed with
-      | none =>
-        -- `self._read_bio.write_eof(); self._write_bio.write_eof()`; the scope ends normally; `await self._transport.aclose()`
-        if T.acloseFinalClose then
-          match innerClose (if T.acloseMarksEof then markBoth s2 else s2) rest with
-          | none => none
-          | some (o, s3, rest3, calls3) =>
-            some (o, { s3 with closedEv := true }, rest3, calls ++ (if T.acloseMarksEof then [.rbioEof, .wbioEof] else []) ++ calls3)
-        else some (.ok, { s2 with closedEv := true }, rest, calls)
-      | some x =>
-        -- `except BaseException: await aclose_forcefully(self._transport); raise`
-        let o : COut ε := match x with
-          | .scopeTimeout => .ok            -- `if shutdown_timeout_scope.cancelled_caught(): return`
-          | y => .exn y
-        if T.acloseForceOnFail then some (o, { (force s2).1 with closedEv := true }, rest, calls ++ (force s2).2)
-        else some (o, { s2 with closedEv := true }, rest, calls)
+    | some (none, s2, rest, calls) =>
+      -- `self._read_bio.write_eof(); self._write_bio.write_eof()`; the scope ends normally; `await self._transport.aclose()`
+      if T.acloseFinalClose then
+        match innerClose (if T.acloseMarksEof then markBoth s2 else s2) rest with
+        | none => none
+        | some (o, s3, rest3, calls3) =>
+          some (o, { s3 with closedEv := true }, rest3, calls ++ (if T.acloseMarksEof then [.rbioEof, .wbioEof] else []) ++ calls3)
+      else some (.ok, { s2 with closedEv := true }, rest, calls)
+    | some (some x, s2, rest, calls) =>
+      -- `except BaseException: await aclose_forcefully(self._transport); raise`
+      if T.acloseForceOnFail then some (acloseFail x, { (force s2).1 with closedEv := true }, rest, calls ++ (force s2).2)
+      else some (acloseFail x, { s2 with closedEv := true }, rest, calls)
   else if T.acloseFinalClose then
     match innerClose { s with closing := true } script with
     | none => none
